@@ -8,6 +8,7 @@ import (
 	"github.com/dgraph-io/badger/v4"
 	"github.com/mimiro-io/datahub/internal/server"
 	"github.com/mimiro-io/datahub/internal/service/entity"
+	"github.com/mimiro-io/datahub/internal/verifhook"
 	"go.uber.org/zap"
 )
 
@@ -23,6 +24,9 @@ type deduplicationStrategy struct {
 }
 
 func (d *deduplicationStrategy) flushThreshold() int {
+	if k := verifhook.Knob("compact.flushAfter", 0); k > 0 {
+		return k
+	}
 	if d.flushAfter > 0 {
 		return d.flushAfter
 	}
